@@ -510,10 +510,13 @@ Fixpoint pool_run (kind : Z) (tiers : list Z) (ops : list word) : option (list w
 
 (* ================================================================== *)
 (* the property on observations                                        *)
-(* clause 1: a pooled allocation is returned to the pool at most once over the whole trace
-   (that it is returned exactly when the last reference goes, and that live references read
-   the original bytes - the tracking pool poisons an array on Put - is compared with the
-   model observation by observation);
+(* clause 1: a pooled allocation is returned to the pool at most once over the whole trace;
+   clause 4: every Put observed at a step is a Put of the model at that step, i.e. the step
+             that frees the last outside reference (fails on an early or spurious Put);
+   clause 5: every Put of the model at a step is observed at that step (fails on a leak or a
+             late Put);
+   clause 2: the bytes read through a live reference are the original bytes of its window
+             (the tracking pool overwrites an array with 238 on Put);
    clause 3 (cfg 2): Get(n) has length n, capacity >= n and only zero bytes *)
 Fixpoint nodup_z (l : list Z) : bool :=
   match l with
@@ -538,17 +541,29 @@ Definition get_obs3 (o : word) : option (list Z * list Z * list Z) :=
   | _ => None
   end.
 Definition is_skip (o : word) : bool := word_eqb o skip.
-Fixpoint buf_clauses (seen : list Z) (obs : list word) : list (Z * Z * bool) :=
-  match obs with
-  | [] => []
-  | o :: r =>
-    if is_skip o then buf_clauses seen r else
-    match get_obs3 o with
-    | Some (puts, _, bytes) =>
-      (1, 0, forallb (fun p => negb (existsb (Z.eqb p) seen)) puts && nodup_z puts) ::
-      buf_clauses (puts ++ seen) r
-    | None => [(0, 0, false)]
+Definition subset_z (a b : list Z) : bool := forallb (fun p => existsb (Z.eqb p) b) a.
+(* the clauses thread the model state: the model (proved in MemBuf_proofs.v to put an
+   allocation exactly at the step that frees its last outside reference) says at which step
+   each allocation goes back to the pool and which bytes a live reference reads *)
+Fixpoint buf_clauses (st : state) (seen : list Z) (k : Z) (ops obs : list word) : list (Z * Z * bool) :=
+  match ops, obs with
+  | [], [] => []
+  | op :: r, o :: r' =>
+    match get_mop op with
+    | None => [(0, k, false)]
+    | Some mo =>
+      let st' := fst (apply_op st mo) in
+      let m := snd (apply_op st mo) in
+      if is_skip o || is_skip m then buf_clauses st' seen (k + 1) r r' else
+      match get_obs3 o, get_obs3 m with
+      | Some (po, _, bo), Some (pm, _, bm) =>
+        (1, k, forallb (fun p => negb (existsb (Z.eqb p) seen)) po && nodup_z po) ::
+        (4, k, subset_z po pm) :: (5, k, subset_z pm po) :: (2, k, word_eqb bo bm) ::
+        buf_clauses st' (po ++ seen) (k + 1) r r'
+      | _, _ => [(0, k, false)]
+      end
     end
+  | _, _ => [(0, 0, false)]
   end.
 Fixpoint pool_clauses (ops obs : list word) : list (Z * Z * bool) :=
   match ops, obs with
@@ -571,7 +586,7 @@ Definition run (cfg : word) (ops : list word) : option (list word) :=
   end.
 Definition clauses (cfg : word) (ops obs : list word) : list (Z * Z * bool) :=
   match cfg with
-  | [1; thr] => if (length ops =? length obs)%nat then buf_clauses [] obs else [(0, 0, false)]
+  | [1; thr] => buf_clauses (init thr) [] 0 ops obs
   | 2 :: kind :: tiers => pool_clauses ops obs
   | _ => [(0, 0, false)]
   end.
